@@ -1,7 +1,8 @@
 (* C16 correspondence cases: the numeric skeleton of an input together with what the real parser
    did with it (in a sandboxed child process): ROk / RErr, or RPanic for a panic, an abort
    (stack overflow, failed allocation), a timeout or a heap use unrelated to the input size. *)
-From FB Require Export C16.Model Base.Run.
+From FB Require Export C16.Model C16.ModelText C16.ModelEv Base.Run.
+From FB Require C16.SitesGen.
 
 Inductive real := ROk | RErr | RPanic.
 
@@ -13,13 +14,15 @@ Inductive case :=
 | CAttrLen (tag declared actual : N) (r : real)       (* unknown attribute (0) / SourceDebugExtension (1) at the end of the file *)
 | CLine (l : list N) (r : real)                       (* tiny v2 header + this line (bytes) *)
 | CDesc (kind : N) (s : str) (r : real)               (* 0 field 1 method 2 return descriptor *)
-| CNest (kind depth : N) (r : real)                   (* element value: 0 arrays / 1 annotations / 3, 4 alternating; 2 Enigma CLASS sections *)
+| CNest (kind depth : N) (r : real)                   (* element value below an annotation: 0 arrays / 1 annotations / 3, 4 alternating (array / annotation outermost);
+                                                         5..8 the same four as AnnotationDefault value; 2 Enigma CLASS sections *)
 | CShared (k a input_len : N) (r : real)              (* k invokedynamic instructions sharing a arguments (known finding F17) *)
 | CBootN (g : list (list N)) (roots : list N) (indy : bool) (r : real) (expanded : option N)
     (* one instruction with several top-level bootstrap arguments; [expanded] = the number of
        bootstrap arguments (counting nested ones) found in the instruction of the accepted tree *)
 | CArgSize (desc : str) (r : real)                    (* invokeinterface with this descriptor: what the class WRITER did *)
-| CUnesc (cell : str) (r : real) (got : str).         (* tiny v2 class comment cell and the comment the reader stored *)
+| CUnesc (cell : str) (r : real) (got : str)          (* tiny v2 class comment cell and the comment the reader stored, both as UTF-8 bytes *)
+| CText (kind n : N) (input : list N) (r : real).     (* a whole text file (bytes): 0 tiny v2 with n namespaces, 1 tiny diff, 2 Enigma, 3 nests *)
 
 (* the model's answer and the observed one agree exactly *)
 Definition same {A} (m : out A) (r : real) : bool :=
@@ -42,7 +45,17 @@ Definition check (c : case) : bool :=
   | CAttrLen _ declared actual r => same (read_u8_vec declared actual) r
   | CLine l r => compatible (text_line l) r
   | CDesc k s r => same (desc_out k s) r
-  | CNest k depth r => same (if k =? 2 then enigma_class_chain depth else element_value_chain depth) r
+  | CNest k depth r =>
+      if k =? 2 then same (enigma_class_chain depth) r && same (enigma_out (class_staircase 0 (N.to_nat depth))) r
+      else
+        (* the three element_value readers with the increments and the limit read from the source *)
+        match incs_of SitesGen.ev_calls with
+        | Some incs =>
+            let mode := if k =? 0 then 0%nat else if k =? 1 then 1%nat else if k =? 3 then 2%nat else if k =? 4 then 3%nat else N.to_nat (k - 5) in
+            let entry := if k <? 5 then FNamed else FElem in
+            same (ev_read incs SitesGen.ev_limit (ev_fuel SitesGen.ev_limit) entry 0 [ev_chain mode (N.to_nat depth) 0]) r
+        | None => false
+        end
   | CShared k a len r => same (shared_args_alloc k a len) r
   | CBootN g roots indy r expanded =>
       let m := boot_roots g roots indy in
@@ -54,5 +67,10 @@ Definition check (c : case) : bool :=
       | _, Some _ => false
       end
   | CArgSize desc r => same (arguments_size desc) r
-  | CUnesc cell r got => match r with ROk => str_eqb (unescape_cp cell) got | _ => false end
+  | CUnesc cell r got =>
+      (* the char iteration of the code (unescape_b) and the byte-wise reading (unescape_cp) *)
+      match r with ROk => str_eqb (unescape_b cell) got && str_eqb (unescape_cp cell) got | _ => false end
+  | CText k n input r =>
+      same (if k =? 0 then tiny_v2_out (N.to_nat n) input else if k =? 1 then tiny_diff_out input
+            else if k =? 2 then enigma_out input else nests_out input) r
   end.
